@@ -11,8 +11,9 @@ type Profile struct {
 	NullProb    float64 // probability that a pointer / optional field is nil / zero
 	MaxLen      int     // max slice length
 	SmallDomain bool    // few distinct values (dictionary hits, RLE runs)
-	LongLists   bool    // some slices get 600-2100 elements (more than any internal chunk size)
-	RunLen      int     // if > 0, null/non-null decisions are made in runs of about this length
+	LongLists   bool    // one scalar slice per row gets 513-2100 elements (more than any internal chunk size)
+	longUsed    bool
+	RunLen      int // if > 0, null/non-null decisions are made in runs of about this length
 	runLeft     map[string]int
 	runNull     map[string]bool
 }
@@ -94,8 +95,10 @@ func Fill(r *rand.Rand, v reflect.Value, p *Profile, path string, isOptional boo
 			n = 0 // empty, non-nil
 		default:
 			n = 1 + r.Intn(p.MaxLen)
-			if p.LongLists && r.Intn(3) == 0 {
+			if ek := v.Type().Elem().Kind(); p.LongLists && !p.longUsed && ek != reflect.Struct && ek != reflect.Slice && ek != reflect.Ptr && ek != reflect.Map && r.Intn(2) == 0 {
+				// one scalar list per row only: nesting long lists multiplies out
 				n = []int{513, 600, 1100, 2100}[r.Intn(4)]
+				p.longUsed = true
 			}
 		}
 		s := reflect.MakeSlice(v.Type(), n, n)
@@ -287,6 +290,7 @@ func splitTag(tag string) []string {
 // FillRows fills a []T (reflect slice) with random rows.
 func FillRows(r *rand.Rand, rows reflect.Value, p *Profile) {
 	for i := 0; i < rows.Len(); i++ {
+		p.longUsed = false
 		Fill(r, rows.Index(i), p, "", false)
 	}
 }
